@@ -38,6 +38,7 @@ import (
 	"go.etcd.io/etcd/raft/v3"
 	"go.etcd.io/etcd/raft/v3/quorum"
 	pb "go.etcd.io/etcd/raft/v3/raftpb"
+	"go.etcd.io/etcd/raft/v3/tracker"
 )
 
 // etcd draws the randomised election timeout from a package-level PRNG seeded with the wall clock; the harness
@@ -117,6 +118,10 @@ type profile struct {
 	// LEADER's handled Ready may also stay un-advanced across deliveries that cannot grow its log (anything but a proposal)
 	script  bool // deferAdv only, 5 nodes: the schedule starts with a scripted prologue (scriptConflictInsideReady), then continues at random
 	prevote bool // Config.PreVote (+CheckQuorum): library features raftexample leaves off; outside the model, safety predicates only
+	report int // step 8: weight of transport reports on a leader's RawNode - ReportSnapshot(id, SnapshotFinish | SnapshotFailure) and ReportUnreachable(id), as
+	// rafthttp makes them; besides, a MsgSnap that was just emitted is reported (finished or failed) BEFORE it is delivered with probability 0.6, half of the
+	// time followed at once by a heartbeat that overtakes it; half of the schedules with n >= 3 start with the prologue scriptSnapReport.  Replayed on
+	// RS.handle's inputs snapStatus / unreachable (Match must not move) and RS.reportProg (the whole Progress record before/after the report)
 	joint   bool // Stage D step 7 (with mlock): membership proposals are ConfChangeV2 of every shape (single change, EnterJoint explicit / with automatic
 	// leave, LeaveJoint) next to the legacy ConfChange; the schedule is replayed event by event on the joint handler RHJ.handleJ (header RJ)
 }
@@ -145,6 +150,8 @@ var profiles = []profile{
 
 // profiles selected by name only (-profile): they do not take part in the round-robin of runRaftsim
 var soloProfiles = []profile{
+	{name: "snap-report", wTick: 22, wDeliver: 48, wDrop: 2, wPropose: 14, wCampaign: 1, wCrash: 3, wCompact: 9, pDup: 0.05, lag: true, report: 8},
+	{name: "snap-report-partition", wTick: 24, wDeliver: 46, wDrop: 3, wPropose: 14, wCampaign: 3, wCrash: 3, wCompact: 9, pDup: 0.1, partition: 40, pHeal: 0.4, report: 8},
 	{name: "member-joint", wTick: 22, wDeliver: 55, wDrop: 3, wPropose: 8, wCampaign: 3, wCrash: 2, wCompact: 2, pDup: 0.1, member: 8, mlock: true, joint: true},
 	{name: "member-joint-partition", wTick: 24, wDeliver: 50, wDrop: 4, wPropose: 8, wCampaign: 3, wCrash: 2, wCompact: 2, pDup: 0.15, partition: 40, pHeal: 0.4, member: 8, mlock: true, joint: true},
 }
@@ -186,6 +193,7 @@ type sim struct {
 	bad      bool
 	ids      []uint64
 	propNext bool   // the event about to run delivers a forwarded proposal (it can grow a leader's log)
+	snapSent [][2]int // profiles with report: (leader, follower) of every MsgSnap just emitted and not yet looked at by the scheduler
 	forced   string // profile deferAdv: key of the pool message to deliver next (a newer-term append that conflicts inside a Ready just left un-advanced)
 }
 
@@ -727,6 +735,9 @@ func (s *sim) addToPool(ms []pb.Message) []string {
 		outs = append(outs, txt)
 		if m.Type == pb.MsgSnap {
 			s.stats["snap-sent"]++
+			if s.prof.report > 0 {
+				s.snapSent = append(s.snapSent, [2]int{int(m.From - 1), int(m.To - 1)})
+			}
 		}
 		key := fmt.Sprintf("%s|%d|%d", txt, m.RejectHint, m.LogTerm)
 		if s.inPool[key] {
@@ -1388,6 +1399,194 @@ func (s *sim) doConfChangeV2(i int) {
 	})
 }
 
+// ---- step 8: transport reports (what rafthttp tells the leader about a peer)
+
+// the leader's whole Progress record for `id` in etcd's own index space: state, Match, Next, PendingSnapshot, ProbeSent, number of inflights ("-": no tracker)
+func progOf(rn *raft.RawNode, id uint64) string {
+	st := rn.Status()
+	pr, ok := st.Progress[id]
+	if !ok {
+		return "-"
+	}
+	c := 0
+	if pr.Inflights != nil {
+		c = pr.Inflights.Count()
+	}
+	return fmt.Sprintf("%s,%d,%d,%d,%s,%d", map[tracker.StateType]string{tracker.StateProbe: "P", tracker.StateReplicate: "R", tracker.StateSnapshot: "S"}[pr.State],
+		pr.Match, pr.Next, pr.PendingSnapshot, b01(pr.ProbeSent), c)
+}
+
+// doReport: kind 0 ReportSnapshot(SnapshotFinish), 1 ReportSnapshot(SnapshotFailure), 2 ReportUnreachable - on node i's RawNode about node f
+func (s *sim) doReport(i, f, kind int) {
+	nd := s.nodes[i]
+	id := uint64(f + 1)
+	s.event("report", i, func() []string {
+		pre := progOf(nd.rn, id)
+		isS := strings.HasPrefix(pre, "S")
+		switch kind {
+		case 0:
+			nd.rn.ReportSnapshot(id, raft.SnapshotFinish)
+		case 1:
+			nd.rn.ReportSnapshot(id, raft.SnapshotFailure)
+		default:
+			nd.rn.ReportUnreachable(id)
+		}
+		post := progOf(nd.rn, id)
+		if kind == 2 {
+			s.stats["report-unreachable"]++
+			if strings.HasPrefix(pre, "R") {
+				s.stats["report-unreachable-replicating"]++
+			}
+			return []string{fmt.Sprintf("unreach:%d:%s:%s", f, pre, post)}
+		}
+		s.stats["report-snapshot"]++
+		if isS {
+			s.stats[[]string{"report-snapshot-finish-pending", "report-snapshot-failure-pending"}[kind]]++
+		}
+		return []string{fmt.Sprintf("snapst:%d:%d:%s:%s", f, kind, pre, post)}
+	})
+}
+
+// a random report: mostly at a leader, mostly about a follower it is sending a snapshot to / replicating to
+func (s *sim) doRandomReport() {
+	up := s.upNodes()
+	if len(up) == 0 || s.n < 2 {
+		return
+	}
+	var ls []int
+	for _, i := range up {
+		if s.nodes[i].rn.BasicStatus().RaftState == raft.StateLeader {
+			ls = append(ls, i)
+		}
+	}
+	i := up[s.rng.Intn(len(up))]
+	if len(ls) > 0 && s.rng.Float64() < 0.9 {
+		i = ls[s.rng.Intn(len(ls))]
+	} else if len(ls) == 0 && s.rng.Float64() < 0.7 {
+		s.doTick(i) // nobody leads: mostly let time pass instead (a report to a non-leader is ignored)
+		return
+	}
+	kind := s.rng.Intn(3)
+	var want []int
+	for f := 0; f < s.n; f++ {
+		if p := progOf(s.nodes[i].rn, uint64(f+1)); f != i && ((kind < 2 && strings.HasPrefix(p, "S")) || (kind == 2 && strings.HasPrefix(p, "R"))) {
+			want = append(want, f)
+		}
+	}
+	f := (i + 1 + s.rng.Intn(s.n-1)) % s.n
+	if len(want) > 0 && s.rng.Float64() < 0.85 {
+		f = want[s.rng.Intn(len(want))]
+	}
+	s.doReport(i, f, kind)
+}
+
+// a MsgSnap from l to f was just emitted: the transport reports on it before it arrives (rafthttp reports SnapshotFinish when the POST returned - the
+// receiver has stepped the message in memory at best, persisted nothing), and the leader's next heartbeat may overtake the snapshot
+func (s *sim) reportFreshSnap(l, f int) {
+	if s.nodes[l].down || s.nodes[l].removed || s.rng.Float64() >= 0.6 {
+		return
+	}
+	kind := 0
+	if s.rng.Float64() < 0.35 {
+		kind = 1
+	}
+	s.doReport(l, f, kind)
+	s.stats["report-before-snapshot-delivered"]++
+	if !s.bad && s.rng.Intn(2) == 0 {
+		s.doTick(l)
+		if !s.bad && s.deliverMatch(func(m pb.Message) bool { return m.Type == pb.MsgHeartbeat && m.From == uint64(l+1) && m.To == uint64(f+1) }) {
+			s.stats["heartbeat-overtakes-snapshot"]++
+		}
+	}
+}
+
+func (s *sim) compactTo(i int, c uint64) {
+	nd := s.nodes[i]
+	s.event("compact", i, func() []string {
+		cs := nd.confAt(c)
+		if _, err := nd.ms.CreateSnapshot(c, &cs, []byte(fmtEnts(nd.shadow[:c-1]))); err != nil {
+			panic(fmt.Sprintf("harness: CreateSnapshot(%d): %v", c, err))
+		}
+		if err := nd.ms.Compact(c); err != nil {
+			panic(fmt.Sprintf("harness: Compact(%d): %v", c, err))
+		}
+		return []string{"noop"}
+	})
+}
+
+// scriptSnapReport (profiles with report, n >= 3) builds, with ordinary events only, the situation in which a leader's belief about a follower it sends a
+// snapshot to matters.  Node 0 leads term 1, is cut off and keeps accepting proposals: an uncommitted tail of term 1.  Node 1 wins term 2 with the others,
+// commits as many entries as that tail is long (its own empty entry included), applies and COMPACTS them away.  The partition heals; 1's heartbeat makes 0 a follower of term 2, the
+// heartbeat response makes 1 send a MsgSnap (the entries 0 needs are gone).  BEFORE the snapshot is delivered the transport reports SnapshotFinish (or
+// Failure), 1 ticks, and the heartbeat reaches 0 first - variant B: the MsgSnap is lost and 0 crashes and restarts from its disk before the heartbeat.
+// The heartbeat's Commit must stay min(Match, committed) with the Match 0 has really acknowledged (nothing): 0 must not commit its stale tail.
+// Then the snapshot is delivered (variant A) and the schedule continues at random.
+func (s *sim) scriptSnapReport() {
+	const A, B = 0, 1
+	any := func(pb.Message) bool { return true }
+	s.doCampaign(A)
+	s.settle(any)
+	if s.bad || s.nodes[A].rn.BasicStatus().RaftState != raft.StateLeader {
+		return
+	}
+	s.group[A] = 1
+	tail := 3 + s.rng.Intn(3)
+	for k := 0; k < tail && !s.bad; k++ {
+		s.doPropose(A)
+	}
+	s.dropMatch(func(m pb.Message) bool { return m.From == uint64(A+1) || m.To == uint64(A+1) })
+	s.doCampaign(B)
+	s.settle(any)
+	if s.bad || s.nodes[B].rn.BasicStatus().RaftState != raft.StateLeader {
+		s.group[A] = 0
+		return
+	}
+	for k := 0; k < tail-1 && !s.bad; k++ { // with B's empty entry: exactly as long as A's tail - the snapshot index lies inside it
+		s.doPropose(B)
+		s.settle(any)
+	}
+	s.dropMatch(func(m pb.Message) bool { return m.From == uint64(A+1) || m.To == uint64(A+1) })
+	nb := s.nodes[B]
+	if s.bad || nb.applied < uint64(tail)+2 {
+		s.group[A] = 0
+		return
+	}
+	s.compactTo(B, nb.applied-uint64(s.rng.Intn(2)))
+	s.group[A] = 0
+	hbToA := func(m pb.Message) bool { return m.Type == pb.MsgHeartbeat && m.From == uint64(B+1) && m.To == uint64(A+1) }
+	s.doTick(B)
+	s.dropMatch(func(m pb.Message) bool { return m.To == uint64(A+1) && !hbToA(m) })
+	s.deliverMatch(hbToA)
+	s.snapSent = nil
+	s.deliverMatch(func(m pb.Message) bool { return m.Type == pb.MsgHeartbeatResp && m.From == uint64(A+1) && m.To == uint64(B+1) })
+	if s.bad || len(s.snapSent) == 0 {
+		return // (a duplicated delivery or an early election timeout changed the course: the random part takes over)
+	}
+	s.snapSent = nil
+	kind := 0
+	if s.rng.Intn(4) == 0 {
+		kind = 1
+	}
+	variantB := s.rng.Intn(2) == 0
+	s.doReport(B, A, kind)
+	if variantB && !s.bad {
+		s.dropMatch(func(m pb.Message) bool { return m.Type == pb.MsgSnap && m.To == uint64(A+1) })
+		s.stats["restarts"]++
+		s.doRestart(A)
+	}
+	if !s.bad {
+		s.doTick(B)
+	}
+	if !s.bad && s.deliverMatch(hbToA) {
+		s.stats["heartbeat-overtakes-snapshot"]++
+	}
+	if !s.bad && !variantB {
+		s.deliverMatch(func(m pb.Message) bool { return m.Type == pb.MsgSnap && m.To == uint64(A+1) })
+	}
+	s.snapSent = nil
+	s.stats["scripted-snap-report"]++
+}
+
 func (s *sim) repartition() {
 	if s.rng.Float64() < s.prof.pHeal || s.n == 1 {
 		for i := range s.group {
@@ -1503,11 +1702,13 @@ func (s *sim) run(events int) {
 		s.scriptConflictInsideReady()
 	} else if s.prof.joint && s.n == 5 && s.rng.Intn(2) == 0 {
 		s.scriptJointSplit()
+	} else if s.prof.report > 0 && s.n >= 3 && s.rng.Intn(2) == 0 {
+		s.scriptSnapReport()
 	} else if s.rng.Float64() < 0.7 {
 		s.doCampaign(s.rng.Intn(s.n))
 	}
 	p := s.prof
-	total := p.wTick + p.wDeliver + p.wDrop + p.wPropose + p.wCampaign + p.wCrash + p.wCompact + p.member
+	total := p.wTick + p.wDeliver + p.wDrop + p.wPropose + p.wCampaign + p.wCrash + p.wCompact + p.member + p.report
 	idle, lastEv := 0, -1
 	for s.evNo < events && !s.bad {
 		if s.evNo == lastEv {
@@ -1531,6 +1732,16 @@ func (s *sim) run(events int) {
 				s.lagNode = s.rng.Intn(s.n)
 				s.group[s.lagNode] = 1
 			}
+		}
+		if len(s.snapSent) > 0 {
+			ss := s.snapSent
+			s.snapSent = nil
+			for _, lf := range ss {
+				if !s.bad {
+					s.reportFreshSnap(lf[0], lf[1])
+				}
+			}
+			continue
 		}
 		if s.forced != "" {
 			key := s.forced
@@ -1605,6 +1816,8 @@ func (s *sim) run(events int) {
 			if len(up) > 0 {
 				s.doCompact(up[s.rng.Intn(len(up))])
 			}
+		case r < p.wTick+p.wDeliver+p.wDrop+p.wPropose+p.wCampaign+p.wCrash+p.wCompact+p.report:
+			s.doRandomReport()
 		default:
 			if len(up) > 0 {
 				s.doConfChange(up[s.rng.Intn(len(up))])
